@@ -30,7 +30,9 @@ BODIES = ["x", " lead", "trail \n", "\n\nblank\n\n", "a&amp;b <tag> ]]> & \"q\""
           "a\n<!-- c -->\nb", "a\n <!--c--> \nb", "a\n<!--c-->b\n<!--d-->", "<!-- first -->\na<!--m-->\n",
           # sections that exist but are empty: the includable part is empty, not the whole page
           "<onlyinclude></onlyinclude>This template is intentionally blank.", "a<onlyinclude/>b",
-          "<onlyinclude></onlyinclude>a<onlyinclude>k</onlyinclude>"]
+          "<onlyinclude></onlyinclude>a<onlyinclude>k</onlyinclude>",
+          # an unclosed <noinclude> takes the rest of the page with it, final newline included
+          "A<noinclude>\n[[Category:X]]\n", "A<noinclude>x</noinclude>B<noinclude>\ndoc\n\n"]
 MODELS = ["wikitext", "Scribunto", "json", "css", "javascript", "sanitized-css"]
 KEPT_MODELS = {"wikitext", "Scribunto", "json"}
 DEFAULTS = {"Template:!": "|", "Template:=": "=", "Template:((": "&lbrace;&lbrace;", "Template:))": "&rbrace;&rbrace;"}
